@@ -107,6 +107,29 @@ def cross_entry(c):
                {"defect": "validation-weaker-than-load", "entry": "LoadYAML"})
 
 
+def monitor_store(c):
+    """The listing / viewing layer (DAGStore + client, ONE instance, every call made twice): each call answers with an
+    error or a DAG - never neither, never a panic - and the same way both times, in agreement with the loader itself."""
+    first = {}
+    for sc in c.get("store") or []:
+        base, _, n = sc["call"].partition("#")
+        if sc["cls"] == "panic":
+            yield ("%s panicked at %s: %s" % (sc["call"], sc.get("at"), sc.get("msg")), {"defect": "store-panic", "call": base})
+            continue
+        if sc["cls"] == "neither":
+            yield ("%s answered with neither an error nor a DAG (%s)" % (sc["call"], sc.get("msg") or "nil, nil"),
+                   {"defect": "store-neither", "call": base})
+            continue
+        want = c["res"]["noeval" if base == "GetDetails" else "meta"]["cls"]
+        if want in ("ok", "err") and (sc["cls"] == "dag") != (want == "ok"):
+            yield ("%s answered %s where the loader itself answers %s for the same file" % (sc["call"], sc["cls"], want),
+                   {"defect": "store-disagrees-with-loader", "call": base})
+        if base in first and first[base] != sc["cls"]:
+            yield ("%s answered %s, the first call of the unchanged file answered %s" % (sc["call"], sc["cls"], first[base]),
+                   {"defect": "store-not-repeatable", "call": base})
+        first.setdefault(base, sc["cls"])
+
+
 def monitor_raw(c):
     for e, r in c["res"].items():
         if r["cls"] in ("panic", "crash", "timeout", "oom"):
@@ -122,6 +145,8 @@ def slim(c):
         return {k: c[k] for k in ("kind", "stream", "b64", "len", "res") if k in c}
     out = {k: c[k] for k in ("kind", "stream", "mut", "tree", "yaml") if k in c}
     out["res"] = {e: {k: v for k, v in r.items() if k in ("cls", "err", "at", "repo", "msg")} for e, r in c["res"].items()}
+    if c.get("store"):
+        out["store"] = [sc for sc in c["store"] if sc["cls"] in ("panic", "neither")] or "%d calls, all error-or-DAG" % len(c["store"])
     for e, r in c["res"].items():
         if r.get("dag") and r["dag"].get("endpoint"):
             out["res"][e]["endpoint"] = r["dag"]["endpoint"]
@@ -150,7 +175,7 @@ def gen(ctx, tool, seed, tier, tag):
 def all_monitors(c):
     if c["kind"] != "c13":
         return list(monitor_raw(c))
-    return list(monitor_case(c)) + list(cross_entry(c))
+    return list(monitor_case(c)) + list(cross_entry(c)) + list(monitor_store(c))
 
 
 def failing_keys(c):
@@ -275,6 +300,14 @@ def run(ctx, replay_cases=None):
     ctx.cov["raw_bytes_stream"] = {"label": "robustness testing in support (no theorem covers the YAML library): crashes only",
                                    "documents": len(raws), "streams": rawstreams, "outcomes": rawcls}
     ctx.cov["model_mismatches"] = len(bad)
+    sc_n, sc_cls = 0, {}
+    for c in trees:
+        for sc in c.get("store") or []:
+            sc_n += 1
+            sc_cls[sc["cls"]] = sc_cls.get(sc["cls"], 0) + 1
+    ctx.cov["store_layer"] = {"what": "GetMetadata / List / ListPagination / TagList / GetDetails / client.GetAllStatus, each twice per file through one "
+                                      "DAGStore + client instance (metadata cache included); required: error or DAG, repeatable, agreeing with the loader",
+                              "cases": len([1 for c in trees if c.get("store")]), "calls": sc_n, "answers": sc_cls}
     ept = {}
     for c in trees:
         r = c["res"]["noeval"]
